@@ -1,5 +1,324 @@
-import Pyrealb.Model.Elision
+import Pyrealb.Model.ElisionSpec
+import Pyrealb.Lemmas.ElisionTotal
+import Pyrealb.Lemmas.ElisionEn
+import Pyrealb.Lemmas.ElisionTree
+/-! # C06 — elision, contraction, euphony, a/an on every realized text
+
+Property theorems only. The model (`Model/Elision`) mirrors `ConstituentFr.doElision` / `ConstituentEn.doElision`
+on token lists; the tables and regex alternatives are regenerated from the source (`Gen/ElisionTables`), so the
+finite facts used below (`Lemmas/ElisionFacts`) are re-proved against the current repository.
+
+`Settled ℓ toks` is the declarative statement of the property on adjacent tokens (`Model/Elision.pairOKFr`,
+`pairOKEn`): French F1 no elidable word unelided before a vowel / mute h (lexicon `h` flag as `isElidableFr` reads
+it) · F2 an elided form only before a vowel / mute h · F3 no key of the contraction table survives · F3' à/de never
+before the article le/les, whatever the capitals · F4 ma/ta/sa/ce/beau/… singular take the prevocalic form ·
+F5 cet/bel/fol/mol/nouvel/vieil only there; English: the determiner is `an` iff `anRule` selects the next word.
+
+Each clause: full statement first (`def`), then `_holds`, or `_refuted` (concrete witness, replayed on the real
+code by harness/props/C06.py) with `_partial` (the weakest side conditions found, `Model/ElisionSpec`). -/
 namespace Pyrealb.C06
-open Pyrealb Pyrealb.Elision
-theorem stub_holds : settled .fr [] = true := by decide
+open Pyrealb Pyrealb.Elision Pyrealb.Gen.Elision
+
+/-- every adjacent pair is settled (a pair whose left neighbour is `lier`-ed is exempt in French) -/
+def Settled (ℓ : Lang) (toks : List Tok) : Prop := settled ℓ toks = true
+/-- the input carries no stale elided / prevocalic-only form (fresh terminals, settled sub-lists) -/
+def BwdOK (toks : List Tok) : Prop := bwdFromFr false toks = true
+/-- the side conditions T2, T4, T5 of `Model/ElisionSpec.tameWinFr` hold on every window of the input (T1, T3 are
+    no longer needed since /repo commits 534aec1, 5847d2f) -/
+def Tame (toks : List Tok) : Prop := tameFromFr false toks = true
+
+instance (ℓ : Lang) (toks : List Tok) : Decidable (Settled ℓ toks) := by unfold Settled; infer_instance
+instance (toks : List Tok) : Decidable (BwdOK toks) := by unfold BwdOK; infer_instance
+instance (toks : List Tok) : Decidable (Tame toks) := by unfold Tame; infer_instance
+instance (toks : List Tok) : Decidable (TokWF toks) := by unfold TokWF; infer_instance
+
+/-- a French test token -/
+def tk (x : String) (ct : String := "N") (sg : Bool := true) (h : HFlag := .mute) : Tok :=
+  ⟨some x.toList, ct.toList, false, sg, h, h, true⟩
+/-- an English test token -/
+def tke (x : String) (ct : String := "N") : Tok :=
+  ⟨some x.toList, ct.toList, false, true, .mute, .mute, false⟩
+
+/-! ## C06.0 the lifted tables are those the property names -/
+
+/-- the elidable words, the euphony pairs, the vowel class and à/de+le/les → au/aux/du/des, as the property text
+    lists them -/
+def tables_match_property : Prop :=
+  elidableFr = [['l','a'], ['l','e'], ['j','e'], ['m','e'], ['t','e'], ['s','e'], ['d','e'], ['n','e'], ['q','u','e'],
+                ['p','u','i','s','q','u','e'], ['l','o','r','s','q','u','e'], ['j','u','s','q','u','e'],
+                ['q','u','o','i','q','u','e']] ∧
+  euphonieFrTable.map (·.1) = [['m','a'], ['t','a'], ['s','a'], ['c','e'], ['b','e','a','u'], ['f','o','u'], ['m','o','u'],
+                ['n','o','u','v','e','a','u'], ['v','i','e','u','x']] ∧
+  euphonicFr = euphonieFrTable.map (·.1) ∧
+  prevocalicOnly = [['c','e','t'], ['b','e','l'], ['f','o','l'], ['m','o','l'], ['n','o','u','v','e','l'], ['v','i','e','i','l']] ∧
+  vowelsFr = ['a','e','i','o','u','y','à','â','é','è','ê','ë','î','ï','ô','ö','ù','ü'] ∧
+  contrFr ['à'] ['l','e'] = some ['a','u'] ∧ contrFr ['à'] ['l','e','s'] = some ['a','u','x'] ∧
+  contrFr ['d','e'] ['l','e'] = some ['d','u'] ∧ contrFr ['d','e'] ['l','e','s'] = some ['d','e','s']
+
+theorem tables_match_property_holds : tables_match_property := fact_tables_match_property
+
+/-! ## C06.a the pass never raises -/
+
+def elision_total : Prop :=
+  ∀ (ℓ : Lang) (contr : Bool) (toks : List Tok), TokWF toks → ∃ out, doElision ℓ contr toks = .ok out
+
+/-- holds since /repo commit 5847d2f (`euphonieFrTable[w1.lower()]`; `Ce arbre` raised KeyError before): the only
+    dict subscript left is covered by `fact_euph_total` (every word of `euphonieFrRE` is a key of the table) -/
+theorem elision_total_holds : elision_total := by
+  intro ℓ contr toks hwf
+  cases ℓ with
+  | fr =>
+    obtain ⟨out, ho, _⟩ := goFr_total toks.length toks false (Nat.le_refl _) hwf
+    exact ⟨out, ho⟩
+  | en =>
+    -- the English loop has no raising branch once every realization is a string
+    have hs : ∀ t ∈ toks, t.real.isSome = true := by
+      intro t ht
+      have := hwf t ht
+      simp only [tokWF, Bool.and_eq_true] at this
+      exact this.1.1
+    suffices h : ∀ (n : Nat) (l : List Tok), l.length ≤ n → (∀ t ∈ l, t.real.isSome = true) →
+        ∃ out, goEn contr l = .ok out from h toks.length toks (Nat.le_refl _) hs
+    intro n
+    induction n with
+    | zero =>
+      intro l hl _
+      have : l = [] := List.length_eq_zero_iff.mp (Nat.le_zero.mp hl)
+      subst this; exact ⟨[], rfl⟩
+    | succ n ih =>
+      intro l hl hs
+      match l, hl, hs with
+      | [], _, _ => exact ⟨[], rfl⟩
+      | [t], _, _ => exact ⟨[t], rfl⟩
+      | t1 :: t2 :: rest, hl, hs =>
+        obtain ⟨l1, h1⟩ := ih (t2 :: rest) (by simp at hl ⊢; omega) (fun t ht => hs t (List.mem_cons_of_mem _ ht))
+        obtain ⟨l2, h2⟩ := ih rest (by simp at hl ⊢; omega)
+          (fun t ht => hs t (List.mem_cons_of_mem _ (List.mem_cons_of_mem _ ht)))
+        have s1 := hs t1 (by simp)
+        have s2 := hs t2 (by simp)
+        cases r1 : t1.real with
+        | none => simp [r1] at s1
+        | some x1 =>
+        cases r2 : t2.real with
+        | none => simp [r2] at s2
+        | some x2 =>
+        have : ∃ a, stepEn contr t1 t2 = .ok a := by
+          unfold stepEn
+          simp only [r1, r2]
+          cases view .en t1 with
+          | none => exact ⟨_, rfl⟩
+          | some v1 => cases view .en t2 with
+            | none => exact ⟨_, rfl⟩
+            | some v2 => exact ⟨_, rfl⟩
+        obtain ⟨a, ha⟩ := this
+        cases a with
+        | keep => exact ⟨t1 :: l1, by simp [goEn, ha, h1]⟩
+        | one a => exact ⟨a :: l1, by simp [goEn, ha, h1]⟩
+        | two a b => exact ⟨a :: b :: l2, by simp [goEn, ha, h2]⟩
+
+/-! ## C06.b one French pass settles every adjacent pair -/
+
+def elision_pass_settles : Prop :=
+  ∀ (toks out : List Tok), TokWF toks → BwdOK toks → doElision .fr false toks = .ok out → Settled .fr out
+
+/-- `PP(P("de").cap(True), NP(D("le"), N("chat")))`: `contractionFrTable` is consulted with the words as written,
+    a capitalised preposition is not contracted: `De le chat` -/
+theorem elision_pass_settles_refuted : ¬ elision_pass_settles := by
+  intro h
+  have := h [tk "De" "P", tk "le" "D", tk "chat"] [tk "De" "P", tk "le" "D", tk "chat"]
+    (by decide) (by decide) (by decide)
+  revert this
+  decide
+
+/-- the witnesses of before /repo commits 5847d2f / 534aec1 are now handled (test): capitalised `Ce`, and the pair
+    after an elided word is contracted or elided by the look-ahead -/
+example : doElision .fr false [tk "Ce" "D", tk "arbre"] = .ok [tk "Cet" "D", tk "arbre"] ∧
+    doElision .fr false [tk "jusque" "P", tk "à" "P", tk "le" "D", tk "matin"] =
+      .ok [tk "jusqu'" "P", tk "au" "P", tk "" "D", tk "matin"] ∧
+    doElision .fr false [tk "que" "C", tk "à" "P", tk "le" "D", tk "arbre"] =
+      .ok [tk "qu'" "C", tk "à" "P", tk "l'" "D", tk "arbre"] ∧
+    Tame [tk "jusque" "P", tk "à" "P", tk "le" "D", tk "matin"] := by decide
+
+theorem elision_pass_settles_partial :
+    ∀ (toks : List Tok), TokWF toks → BwdOK toks → Tame toks →
+      ∃ out, doElision .fr false toks = .ok out ∧ Settled .fr out := by
+  intro toks hwf hb ht
+  obtain ⟨out, ho, hs, _⟩ := goFr_settles toks.length toks false (Nat.le_refl _) hwf hb ht
+  exact ⟨out, ho, hs⟩
+
+/-- non-vacuity: elision, euphony, contraction, look-ahead, aspirated h, punctuation and tags attached, `lier` -/
+example : TokWF [tk "de" "P", tk "le" "D", tk "<b>arbre</b>,", tk "que" "C", tk "le" "D", tk "héros" "N" true .aspire,
+                 tk "à" "P", tk "le" "D", tk "beau" "A", tk "(homme)"] ∧
+    BwdOK [tk "de" "P", tk "le" "D", tk "<b>arbre</b>,", tk "que" "C", tk "le" "D", tk "héros" "N" true .aspire,
+           tk "à" "P", tk "le" "D", tk "beau" "A", tk "(homme)"] ∧
+    Tame [tk "de" "P", tk "le" "D", tk "<b>arbre</b>,", tk "que" "C", tk "le" "D", tk "héros" "N" true .aspire,
+          tk "à" "P", tk "le" "D", tk "beau" "A", tk "(homme)"] ∧
+    doElision .fr false [tk "de" "P", tk "le" "D", tk "<b>arbre</b>,", tk "que" "C", tk "le" "D",
+          tk "héros" "N" true .aspire, tk "à" "P", tk "le" "D", tk "beau" "A", tk "(homme)"] =
+      .ok [tk "du" "P", tk "" "D", tk "<b>arbre</b>,", tk "que" "C", tk "le" "D", tk "héros" "N" true .aspire,
+           tk "au" "P", tk "" "D", tk "bel" "A", tk "(homme)"] := by decide
+
+/-- words of the other language are left alone and ask nothing (since /repo commit ab31145): an English `a`, `le`
+    inside a French list is neither elided nor contracted; a French article is still elided before an English word -/
+example : doElision .fr false [tke "le" "D", tk "arbre", tk "de" "P", tke "le" "D", tk "le" "D", tke "apple"] =
+      .ok [tke "le" "D", tk "arbre", tk "de" "P", tke "le" "D", tk "l'" "D", tke "apple"] ∧
+    settled .fr [tke "le" "D", tk "arbre", tk "de" "P", tke "le" "D", tk "l'" "D", tke "apple"] = true := by decide
+
+/-! ## C06.c the text (empty realizations dropped) is settled -/
+
+def text_settled : Prop :=
+  ∀ (toks out : List Tok), TokWF toks → BwdOK toks → doElision .fr false toks = .ok out →
+    Settled .fr (dropEmpty out)
+
+/-- `PP(P("de"),NP(D("un").n("p"),N("ami")))`: `de+des -> de`, the article is emptied, `de ami` is never re-examined -/
+theorem text_settled_refuted : ¬ text_settled := by
+  intro h
+  have := h [tk "de" "P", tk "des" "D" false, tk "ami"] [tk "de" "P", tk "" "D" false, tk "ami"]
+    (by decide) (by decide) (by decide)
+  revert this
+  decide
+
+theorem text_settled_partial :
+    ∀ (toks : List Tok), TokWF toks → BwdOK toks → Tame toks →
+      ∃ out, doElision .fr false toks = .ok out ∧ ((∀ t ∈ out, t.real ≠ some []) → Settled .fr (dropEmpty out)) := by
+  intro toks hwf hb ht
+  obtain ⟨out, ho, hs⟩ := elision_pass_settles_partial toks hwf hb ht
+  refine ⟨out, ho, ?_⟩
+  intro hne
+  have : dropEmpty out = out := by
+    simp only [dropEmpty, List.filter_eq_self]
+    intro t ht'
+    simpa using hne t ht'
+  rw [this]; exact hs
+
+/-! ## C06.d a second pass changes nothing -/
+
+def elision_idempotent : Prop :=
+  ∀ (toks out : List Tok), TokWF toks → BwdOK toks → doElision .fr false toks = .ok out →
+    doElision .fr false out = .ok out
+
+/-- a quoted multi-word second token, `PP(P("de"), Q("des amis"))`: `de+des -> de` removes only the first word of the
+    token, the second pass elides `de` before `amis` (user-quoted text: a witness of the model-level clause only, not
+    a finding about the library's own words) -/
+theorem elision_idempotent_refuted : ¬ elision_idempotent := by
+  intro h
+  have := h [tk "de" "P", tk "des amis" "Q"] [tk "de" "P", tk "amis" "Q"] (by decide) (by decide) (by decide)
+  revert this
+  decide
+
+/-- a settled list is a fixed point -/
+theorem settled_fixpoint :
+    ∀ (toks : List Tok), TokWF toks → Settled .fr toks → doElision .fr false toks = .ok toks := by
+  intro toks hwf hs
+  exact goFr_fix toks.length toks false (Nat.le_refl _) hwf hs
+
+theorem elision_idempotent_partial :
+    ∀ (toks : List Tok), TokWF toks → BwdOK toks → Tame toks →
+      ∃ out, doElision .fr false toks = .ok out ∧ doElision .fr false out = .ok out := by
+  intro toks hwf hb ht
+  obtain ⟨out, ho, hs, _⟩ := goFr_settles toks.length toks false (Nat.le_refl _) hwf hb ht
+  obtain ⟨out', ho', hwf'⟩ := goFr_total toks.length toks false (Nat.le_refl _) hwf
+  have : out' = out := by
+    have := ho'.symm.trans ho
+    cases this; rfl
+  subst this
+  exact ⟨out', ho, settled_fixpoint out' hwf' hs⟩
+
+/-! ## C06.e English: `an` exactly before the words selected by the documented rule -/
+
+def an_iff_rule : Prop :=
+  ∀ (contr : Bool) (toks out : List Tok), TokWF toks → bwdFromEn toks = true →
+    doElision .en contr toks = .ok out → Settled .en out
+
+/-- `NP(D("a"),D("a"),N("apple"))` → `an a apple`: after `a -> an` the next pair is skipped -/
+theorem an_iff_rule_refuted : ¬ an_iff_rule := by
+  intro h
+  have := h false [tke "a" "D", tke "a" "D", tke "apple"] [tke "an" "D", tke "a" "D", tke "apple"]
+    (by decide) (by decide) (by decide)
+  revert this
+  decide
+
+theorem an_iff_rule_partial :
+    ∀ (contr : Bool) (toks : List Tok), TokWF toks → bwdFromEn toks = true → tameFromEn contr toks = true →
+      ∃ out, doElision .en contr toks = .ok out ∧ Settled .en out := by
+  intro contr toks hwf hb ht
+  have hs : ∀ t ∈ toks, t.real.isSome = true := by
+    intro t h
+    have := hwf t h
+    simp only [tokWF, Bool.and_eq_true] at this
+    exact this.1.1
+  obtain ⟨out, ho, hset, _⟩ := goEn_settles contr toks.length toks (Nat.le_refl _) hs hb ht
+  exact ⟨out, ho, hset⟩
+
+/-- the rule itself, on the documented examples (test) -/
+example : anRule "hour".toList = true ∧ anRule "honest".toList = true ∧ anRule "user".toList = false ∧
+    anRule "European".toList = false ∧ anRule "one".toList = false ∧ anRule "uncle".toList = true ∧
+    anRule "FBI".toList = true ∧ anRule "hotel".toList = false ∧ anRule "apple".toList = true := by decide
+
+/-- non-vacuity (English): a/an with tags and punctuation, contraction -/
+example : tameFromEn true [tke "I" "Pro", tke "am" "V", tke "a" "D", tke "<b>honest</b>" "A", tke "man,", tke "a" "D", tke "user"] = true ∧
+    doElision .en true [tke "I" "Pro", tke "am" "V", tke "a" "D", tke "<b>honest</b>" "A", tke "man,", tke "a" "D", tke "user"] =
+      .ok [tke "I'm" "Pro", tke "" "V", tke "an" "D", tke "<b>honest</b>" "A", tke "man,", tke "a" "D", tke "user"] := by decide
+
+/-! ## C06.f the tree: however the two adjacent words came together
+
+`Real place format t out ins lvs` (`Model/ElisionTree`) is the abstract realization fold
+`real(node) = format (doElisionFr (place (concat (map real children))))` for ANY tree, ANY leaf tokens and ANY
+functions `place`, `format`; `ins` are the inputs of all the `doElision` calls of the fold, `lvs` the leaves. -/
+
+/-- full strength: whatever the tree, if `place` never separates an elided token from the word that licenses it
+    (`PlaceOK`), `format` only adds material that `sepWordREC` skips (`FormatOK`) and the leaves are fresh
+    well-formed terminals, the realized token list is settled -/
+def tree_settled : Prop :=
+  ∀ (place format : Nat → List Tok → List Tok) (t : Tree) (out : List Tok) (ins lvs : List (List Tok)),
+    PlaceOK place → FormatOK format → Real place format t out ins lvs → (∀ ts ∈ lvs, InvOut ts) →
+    Settled .fr out
+
+/-- a flat `PP(P("de").cap(True), D("le"), N("chat"))`: one node, three fresh leaves -/
+theorem tree_settled_refuted : ¬ tree_settled := by
+  intro h
+  let idf : Nat → List Tok → List Tok := fun _ l => l
+  have hall : RealAll idf idf [.leaf [tk "De" "P"], .leaf [tk "le" "D"], .leaf [tk "chat"]]
+      ([tk "De" "P"] ++ ([tk "le" "D"] ++ ([tk "chat"] ++ [])))
+      ([] ++ ([] ++ ([] ++ [])))
+      ([[tk "De" "P"]] ++ ([[tk "le" "D"]] ++ ([[tk "chat"]] ++ []))) :=
+    .cons _ _ _ _ _ _ _ _ (.leaf _) (.cons _ _ _ _ _ _ _ _ (.leaf _) (.cons _ _ _ _ _ _ _ _ (.leaf _) .nil))
+  have hreal := Real.node (place := idf) (format := idf) 0 _ _
+    [tk "De" "P", tk "le" "D", tk "chat"] _ _ hall (by decide)
+  have := h idf idf _ _ _ _ placeOK_id formatOK_id hreal (by
+    intro ts hts
+    simp only [List.append_nil, List.cons_append, List.nil_append, List.mem_cons, List.not_mem_nil, or_false] at hts
+    rcases hts with rfl | rfl | rfl <;> exact invOut_single _ (by decide) (by decide))
+  revert this
+  decide
+
+theorem tree_settled_partial :
+    ∀ (place format : Nat → List Tok → List Tok) (t : Tree) (out : List Tok) (ins lvs : List (List Tok)),
+      PlaceOK place → FormatOK format → Real place format t out ins lvs → (∀ ts ∈ lvs, InvOut ts) →
+      (∀ inp ∈ ins, NodeTame inp) → Settled .fr out := by
+  intro place format t out ins lvs hp hf hr hl ht
+  exact (fold_inv place format hp hf t out ins lvs hr hl ht).2.1
+
+/-- non-vacuity: `PP(P("de"), NP(D("le"), N("arbre")))` — the article is elided in the inner node, the outer node
+    sees `de l' arbre` (an elided form in its input, licensed: `BwdOK`) and leaves it -/
+example : ∃ out ins lvs,
+    Real (fun _ l => l) (fun _ l => l)
+      (.node 1 [.leaf [tk "de" "P"], .node 0 [.leaf [tk "le" "D"], .leaf [tk "arbre"]]]) out ins lvs ∧
+    (∀ inp ∈ ins, NodeTame inp) ∧ (∀ ts ∈ lvs, InvOut ts) ∧
+    out = [tk "de" "P", tk "l'" "D", tk "arbre"] := by
+  let idf : Nat → List Tok → List Tok := fun _ l => l
+  have inner : Real idf idf (.node 0 [.leaf [tk "le" "D"], .leaf [tk "arbre"]]) [tk "l'" "D", tk "arbre"]
+      (([tk "le" "D"] ++ ([tk "arbre"] ++ [])) :: ([] ++ ([] ++ []))) ([[tk "le" "D"]] ++ ([[tk "arbre"]] ++ [])) :=
+    Real.node (place := idf) (format := idf) 0 _ _ [tk "l'" "D", tk "arbre"] _ _
+      (.cons _ _ _ _ _ _ _ _ (.leaf _) (.cons _ _ _ _ _ _ _ _ (.leaf _) .nil)) (by decide)
+  have outer := Real.node (place := idf) (format := idf) 1 _ _ [tk "de" "P", tk "l'" "D", tk "arbre"] _ _
+    (.cons _ _ _ _ _ _ _ _ (.leaf [tk "de" "P"]) (.cons _ _ _ _ _ _ _ _ inner .nil)) (by decide)
+  refine ⟨_, _, _, outer, ?_, ?_, rfl⟩
+  · intro inp hi
+    simp only [List.append_nil, List.cons_append, List.nil_append, List.mem_cons, List.not_mem_nil, or_false] at hi
+    rcases hi with rfl | rfl <;> (unfold NodeTame; decide)
+  · intro ts hts
+    simp only [List.append_nil, List.cons_append, List.nil_append, List.mem_cons, List.not_mem_nil, or_false] at hts
+    rcases hts with rfl | rfl | rfl <;> exact invOut_single _ (by decide) (by decide)
+
 end Pyrealb.C06
